@@ -11,7 +11,7 @@ From Coq Require Import NArith List Bool Arith Permutation Relations.
 From DBG Require Import Proofs.AbstractWalk.
 From DBG Require Import Spec.Dna Spec.GraphIndex Spec.Unitig Spec.CompressSpec Packed.ExtsModel Algo.Compress
   Check.GraphCheck Check.CompressHyp Proofs.CompressBasics Proofs.CompressRefine Proofs.CompressWalk
-  Proofs.CompressProofs Proofs.UnitigProofs Proofs.CompressHypProofs Check.UnitigCheck Proofs.UnitigCheckProofs.
+  Proofs.CompressProofs Proofs.UnitigProofs Proofs.CompressHypProofs Check.UnitigCheck Proofs.UnitigCheckProofs Proofs.UnitigOrder.
 Import ListNotations.
 Local Open Scope nat_scope.
 
@@ -68,8 +68,19 @@ Print Assumptions C02_chk_c02p_sound.
 (* Uniqueness of the decomposition.  Full statement (NOT proved at sequence level):
      forall T T', Permutation T T' -> the multisets of node sequences of compress T and compress T' agree up to
      replacing a sequence w by rc w (unstranded) and rotating the sequence of an isolated cycle.
-   Proved: the partition of the keys into nodes is determined by the table alone - it is the set of classes of
-   [mconn], which does not depend on the iteration order (C02_same_node_iff holds for every order of T). *)
+   Proved (partition level): the order in which the hash table iterates its keys does not change which keys
+   share a node.  Together with C01_node_facts (the windows of a node are the oriented k-mers of a path through
+   exactly these keys, consecutive ones linked) what remains unproved is only that the SAME key set is spelled as
+   the same path up to reversal/rotation. *)
+Theorem C02_decomposition_unique_partial : forall D reduce join K stranded, 1 <= K ->
+  (forall a b, join a b = join b a) -> forall T T' : table D,
+  tbl_ok D K stranded T -> exts_sym D stranded T -> Permutation T T' ->
+  exists nodes nodes', compress_kmers D reduce join stranded T = Some nodes /\
+    compress_kmers D reduce join stranded T' = Some nodes' /\
+    forall kx ky, In kx (keys D T) -> In ky (keys D T) ->
+      (same_node D K stranded nodes kx ky <-> same_node D K stranded nodes' kx ky).
+Proof. exact order_independent. Qed.
+Print Assumptions C02_decomposition_unique_partial.
 
 (* non-vacuity: the table of Properties/C01.v with the colour-equality join predicate *)
 Definition C02_ex_keys : list dna :=
